@@ -4,7 +4,8 @@ from ..fmtdecode import format_pieces
 from ..paths import PathEnum
 from ..tables import enum_const_table
 from .fields import field_writers, mut_borrow_consumers
-from .util import is_call, look, norm, option_is_some, transforms, last_seg
+from .util import is_call, look, norm, option_is_some, transforms, last_seg, truth
+from ..symstr import symstr
 
 EXPLANATION = (
     "Static decision of the router: the format templates that build the registration key and the "
@@ -60,46 +61,60 @@ def find_event(lf, pred):
     return [e for e in lf.events if e[0] == "call" and pred(e[3], e[4])]
 
 
+def _routes_calls(lf, names):
+    return [e for e in lf.events if e[0] == "call" and "HashMap" in e[3] and last_seg(e[3]) in names and e[4][2] and self_field(e[4][2][0], "routes")]
+
+
+def _lv(ctx, name):
+    """Return-leaves with helpers and the closures handed to Option/Result combinators traversed inline."""
+    from .conn import leaves
+    fn, lv = leaves(ctx, name, lower=True)
+    return fn, [l for l in lv if l.kind == "return"]
+
+
 def keys(ctx):
     facts = ctx.facts
-    fa = facts.fn("router::HttpRoutes::<T>::add_route")
-    fh = facts.fn("router::HttpRoutes::<T>::handle_http_request")
-    ctx.touched(fa, fh)
-    la = [l for l in PathEnum(fa, facts).run() if l.kind == "return"]
-    lh = [l for l in PathEnum(fh, facts).run() if l.kind == "return"]
+    fa, la = _lv(ctx, "router::HttpRoutes::<T>::add_route")
+    fh, lh = _lv(ctx, "router::HttpRoutes::<T>::handle_http_request")
     ctx.ob("R17.1", "paths", len(la) >= 2 and len(lh) >= 2, "add_route has %d return paths, handle_http_request %d (floor 2 each)" % (len(la), len(lh)))
-    reg = None
+
+    def show(ps):
+        return " ".join(repr(p[1]) if p[0] == "lit" else "<%s>" % term_s(p[1])[:40] for p in ps)
+
+    # registration: every key handed to the route table on a path is  to_str(method) ':' self.prefix path
+    n = 0
     for lf in la:
-        ev = find_event(lf, lambda p, t: last_seg(p) == "entry" and "HashMap" in p)
-        ctx.ob("R17.1", "add_route|entry|bb%d" % lf.bb, len(ev) == 1 and self_field(ev[0][4][2][0], "routes"), "one HashMap::entry call on self.routes per path", fa.loc(lf.bb))
-        if len(ev) != 1:
-            continue
-        key = look(ev[0][4][2][1])
-        if is_call(key, "clone"):
-            key = look(key[2][0])
-        reg = format_pieces(key)
-        sk = skeleton(reg)
-        ctx.ob("R17.1", "add_route|skeleton", sk == ["{}", ":", "{}"], "registration key template %r (want {}:{})" % (sk,), fa.loc(ev[0][1]))
-        args = [p for p in reg if p[0] == "arg"]
-        ok0 = len(args) == 3 and is_call(args[0][1], "common::Method::to_str") and look(args[0][1][2][0]) == ("arg", 2)
-        ok1 = len(args) == 3 and self_field(args[1][1], "prefix") and look(args[2][1]) == ("arg", 3)
-        disp = all(a[2] == "new_display" for a in args)
-        ctx.ob("R17.1", "add_route|args", ok0 and ok1 and disp, "registration key = to_str(method) ':' self.prefix path (Display): %s" % [term_s(a[1])[:50] for a in args], fa.loc(ev[0][1]))
-    look_key = None
+        ev = _routes_calls(lf, ("entry", "contains_key", "insert", "get", "get_mut", "try_insert"))
+        ctx.ob("R17.1", "add_route|table-access|bb%d" % lf.bb, 1 <= len(ev) <= 2, "%d access(es) to self.routes on this path of add_route" % len(ev), fa.loc(lf.bb))
+        for e in ev:
+            n += 1
+            try:
+                ps = symstr(e[4][2][1], lf)
+            except AnalysisError as ex:
+                ctx.fail("R17.1", "add_route|key|cannot-evaluate", "registration key cannot be evaluated: %s" % ex, fa.loc(e[1]))
+                continue
+            ok = (len(ps) == 4 and ps[0][0] == "sym" and is_call(ps[0][1], "common::Method::to_str") and look(ps[0][1][2][0]) == ("arg", 2)
+                  and ps[1] == ("lit", ":") and ps[2][0] == "sym" and self_field(ps[2][1], "prefix") and ps[3][0] == "sym" and look(ps[3][1]) == ("arg", 3))
+            ctx.ob("R17.1", "add_route|key", ok, "registration key = to_str(method) ':' self.prefix path; found: %s" % show(ps), fa.loc(e[1]))
+    ctx.ob("R17.1", "add_route|floor", n >= 2, "%d registration keys evaluated (floor 2)" % n)
+    m = 0
     for lf in lh:
-        ev = find_event(lf, lambda p, t: last_seg(p) == "get" and "HashMap" in p)
-        ctx.ob("R17.1", "lookup|get|bb%d" % lf.bb, len(ev) == 1 and self_field(ev[0][4][2][0], "routes"), "one HashMap::get call on self.routes per path", fh.loc(lf.bb))
-        if len(ev) != 1:
-            continue
-        key = look(ev[0][4][2][1])
-        lk = format_pieces(key)
-        sk = skeleton(lk)
-        ctx.ob("R17.1", "lookup|skeleton", sk == ["{}", ":", "{}"], "lookup key template %r (want {}:{})" % (sk,), fh.loc(ev[0][1]))
-        args = [p for p in lk if p[0] == "arg"]
-        ok0 = len(args) == 2 and is_call(args[0][1], "common::Method::to_str") and is_call(look(args[0][1][2][0]), "request::Request::method") and look(look(args[0][1][2][0])[2][0]) == ("arg", 2)
-        ok1 = len(args) == 2 and is_call(args[1][1], "request::Uri::get_abs_path") and is_call(look(args[1][1][2][0]), "request::Request::uri") and look(look(args[1][1][2][0])[2][0]) == ("arg", 2)
-        disp = all(a[2] == "new_display" for a in args)
-        ctx.ob("R17.1", "lookup|args", ok0 and ok1 and disp, "lookup key = to_str(request.method()) ':' request.uri().get_abs_path() (Display): %s" % [term_s(a[1])[:60] for a in args], fh.loc(ev[0][1]))
+        ev = _routes_calls(lf, ("get", "get_mut", "contains_key", "entry", "remove", "get_key_value"))
+        ctx.ob("R17.1", "lookup|get|bb%d" % lf.bb, len(ev) == 1 and last_seg(ev[0][3]) == "get", "one HashMap::get on self.routes per path", fh.loc(lf.bb))
+        for e in ev:
+            m += 1
+            try:
+                ps = symstr(e[4][2][1], lf)
+            except AnalysisError as ex:
+                ctx.fail("R17.1", "lookup|key|cannot-evaluate", "lookup key cannot be evaluated: %s" % ex, fh.loc(e[1]))
+                continue
+            ok = len(ps) == 3 and ps[0][0] == "sym" and ps[1] == ("lit", ":") and ps[2][0] == "sym"
+            if ok:
+                a0, a1 = ps[0][1], ps[2][1]
+                ok = (is_call(a0, "common::Method::to_str") and is_call(look(a0[2][0]), "request::Request::method") and look(look(a0[2][0])[2][0]) == ("arg", 2)
+                      and is_call(a1, "request::Uri::get_abs_path") and is_call(look(a1[2][0]), "request::Request::uri") and look(look(a1[2][0])[2][0]) == ("arg", 2))
+            ctx.ob("R17.1", "lookup|key", ok, "lookup key = to_str(request.method()) ':' request.uri().get_abs_path(); found: %s" % show(ps), fh.loc(e[1]))
+    ctx.ob("R17.1", "lookup|floor", m >= 2, "%d lookup keys evaluated (floor 2)" % m)
     # accessor identities used by the lookup key
     for name, field in (("request::Request::method", "method"), ("request::Request::uri", "uri")):
         f = facts.fn(name)
@@ -125,8 +140,7 @@ def to_str(ctx):
 
 def dispatch(ctx):
     facts = ctx.facts
-    fh = facts.fn("router::HttpRoutes::<T>::handle_http_request")
-    leaves = [l for l in PathEnum(fh, facts).run() if l.kind == "return"]
+    fh, leaves = _lv(ctx, "router::HttpRoutes::<T>::handle_http_request")
     seen = set()
     for lf in leaves:
         some = None
@@ -208,41 +222,56 @@ def dispatch(ctx):
 
 def add_route(ctx):
     facts = ctx.facts
-    fa = facts.fn("router::HttpRoutes::<T>::add_route")
-    leaves = [l for l in PathEnum(fa, facts).run() if l.kind == "return"]
+    fa, leaves = _lv(ctx, "router::HttpRoutes::<T>::add_route")
     seen = set()
     for lf in leaves:
         occ = None
         ent = None
+        tested_key = None
         for (t, c, _bb) in lf.conds:
             if t[0] == "discr" and is_call(look(t[1]), "entry"):
                 ent = look(t[1])
                 if c[0] == "eq":
                     occ = c[1] == 0  # Entry::Occupied = 0, Vacant = 1
-        ins = [e for e in lf.events if e[0] == "call" and last_seg(e[3]) in ("insert", "insert_entry", "or_insert", "or_insert_with") ]
+            x = t
+            neg = False
+            while x[0] == "un" and x[1] == "Not":
+                x, neg = look(x[2]), not neg
+            if is_call(x, "contains_key") and "HashMap" in x[1] and self_field(x[2][0], "routes") and truth(c) is not None:
+                occ = truth(c) != neg
+                tested_key = x[2][1]
+        ins = [e for e in lf.events if e[0] == "call" and last_seg(e[3]) in ("insert", "insert_entry", "or_insert", "or_insert_with", "try_insert")]
         r = look(lf.ret())
         if occ is True:
             seen.add("occupied")
             ok = not ins and r[0] == "agg" and r[2] == "Err" and look(r[3][0])[0] == "agg" and look(r[3][0])[2] == "HandlerExist"
-            ctx.ob("R17.5", "occupied|refused", ok, "an occupied entry returns Err(HandlerExist) and inserts nothing", fa.loc(lf.bb))
+            ctx.ob("R17.5", "occupied|refused", ok, "an occupied key returns Err(HandlerExist) and inserts nothing", fa.loc(lf.bb))
         elif occ is False:
             seen.add("vacant")
             ok = len(ins) == 1 and r[0] == "agg" and r[2] == "Ok"
             if ok:
                 a = ins[0][4][2]
                 recv = look(a[0])
-                ok = recv[0] == "field" and recv[1][0] == "downcast" and recv[1][2] == "Vacant" and norm(look(recv[1][1])) == norm(ent) and look(a[1]) == ("arg", 4)
-            ctx.ob("R17.5", "vacant|inserted", ok, "a vacant entry gets exactly the handler passed in and returns Ok", fa.loc(lf.bb))
+                if ent is not None:
+                    ok = recv[0] == "field" and recv[1][0] == "downcast" and recv[1][2] == "Vacant" and norm(look(recv[1][1])) == norm(ent) and look(a[1]) == ("arg", 4)
+                else:
+                    # contains_key(k) false, then routes.insert(k', handler) with the same key
+                    try:
+                        same = tested_key is not None and len(a) == 3 and symstr(a[1], lf) == symstr(tested_key, lf)
+                    except AnalysisError:
+                        same = False
+                    ok = self_field(a[0], "routes") and same and look(a[2]) == ("arg", 4)
+            ctx.ob("R17.5", "vacant|inserted", ok, "a vacant key gets exactly the handler passed in and returns Ok", fa.loc(lf.bb))
         else:
-            ctx.fail("R17.5", "undecided-path", "a path through add_route is not decided by the entry being Occupied/Vacant", fa.loc(lf.bb))
-    ctx.ob("R17.5", "covered", seen == {"occupied", "vacant"}, "both entry outcomes have a path (%s)" % sorted(seen))
+            ctx.fail("R17.5", "undecided-path", "a path through add_route is not decided by the key being occupied / vacant", fa.loc(lf.bb))
+    ctx.ob("R17.5", "covered", seen == {"occupied", "vacant"}, "both outcomes have a path (%s)" % sorted(seen))
     # nobody else mutates the route table
     n = 0
     for fn in facts.fns.values():
         for site, bi, t in mut_borrow_consumers(fn, ROUTES, "routes"):
             n += 1
             callee = t["callee"].get("path") if t else None
-            ok = fn.name == "router::HttpRoutes::<T>::add_route" and callee is not None and last_seg(callee) == "entry"
+            ok = fn.name == "router::HttpRoutes::<T>::add_route" and callee is not None and last_seg(callee) in ("entry", "insert")
             ctx.ob("R17.5", "routes-mutators|%s|%s" % (fn.name, last_seg(callee) if callee else "escapes"), ok, "&mut self.routes is handed to %s in %s" % (callee, fn.name), fn.loc(site[0], site[1]))
     for w in field_writers(facts, ROUTES, "routes"):
         if w[3] in ("assign", "assign-inside", "call-result"):
